@@ -229,7 +229,8 @@ func (w *hWorld) apply(k int, op hOp) bool {
 		}
 		w.step = fmt.Sprintf("#%d duplicate reception of bundle %d", k, i)
 		w.s.logf("%s", w.step)
-		w.s.receive(w.build(i))
+		// the very bundle that was handed to the node before (a rebuilt one would carry a creation time of its own)
+		w.s.receive(st.b)
 	case "up":
 		if np == 0 {
 			return false
